@@ -455,6 +455,9 @@ impl<'tcx> Cx<'tcx> {
             }
             K::Call(f, args) => {
                 let mut o = self.base("call", e);
+                if e.span.from_expansion() {
+                    o.push(("snip", J::opt_s(snippet(self.tcx, e.span))));
+                }
                 o.push(("f", self.expr(f)));
                 o.push(("args", J::Arr(args.iter().map(|a| self.expr(a)).collect())));
                 J::Obj(o)
@@ -703,7 +706,11 @@ impl<'tcx> Cx<'tcx> {
         };
         let K::Match(_, inner_arms, _) = &peel(inner).kind else { return None };
         let [_none, some] = inner_arms else { return None };
-        let hir::PatKind::TupleStruct(_, [pat], _) = &some.pat.kind else { return None };
+        let pat: &hir::Pat<'tcx> = match &some.pat.kind {
+            hir::PatKind::TupleStruct(_, [pat], _) => pat,
+            hir::PatKind::Struct(_, [field], _) => field.pat,
+            _ => return None,
+        };
         let mut o = self.base("for", e);
         o.push(("loop_id", J::Num(peel(arm.body).hir_id.local_id.as_u32() as i64)));
         o.push(("label", J::opt_s(label.map(|l| l.ident.to_string()))));
